@@ -330,10 +330,12 @@ package treeset
 //@   modifies nothing
 //@   ensures [C14 C16 C17 C18] fresh(result) && Inv(result) && fresh(result.tree) && result.tree.Comparator == set.tree.Comparator && N(result) <= N(set)
 //@   ensures [C14] all: forall j :: 0 <= j && j < N(set) ==> Mem(result, f(j, KeyAt(set, j)))
+//@   ensures [C14] only: forall x like keylike(result) :: Mem(result, x) ==> (exists j :: 0 <= j && j < N(set) && set.tree.Comparator(x, f(j, KeyAt(set, j))) == 0)
 //@   loop 1:
 //@     invariant ItInv(iterator) && iterator.tree == set.tree && fresh(iterator) && fresh(iterator.iterator) && fresh(newSet) && Inv(newSet) && fresh(newSet.tree) && newSet.tree.Comparator == set.tree.Comparator && N(newSet) <= min(iterator.index + 1, N(set))
 //@     invariant forall x like set.tree.Root :: fresh(x) ==> x.tr == newSet.tree || x.tr == nil
 //@     invariant forall j :: 0 <= j && j <= iterator.index && j < N(set) ==> Mem(newSet, f(j, KeyAt(set, j)))
+//@     invariant forall x like keylike(newSet) :: Mem(newSet, x) ==> (exists j :: 0 <= j && j <= iterator.index && j < N(set) && set.tree.Comparator(x, f(j, KeyAt(set, j))) == 0)
 //@     decreases N(set) - iterator.index
 
 //@ func New
